@@ -52,6 +52,7 @@ impl HipEstimator {
     uninterp spec fn log(&self) -> Seq<(u8, u8)>;
     #[verifier::external_body]
     fn new(lg_config_k: u8) -> (r: Self)
+      requires lg_config_k < 32   // `1 << lg_config_k` is an i32 shift (unit hll_api proves the body under this precondition)
       ensures r.log() == Seq::<(u8, u8)>::empty()
     { unimplemented!() }
     #[verifier::external_body]
@@ -157,6 +158,8 @@ impl Array8 {
     }
     // the abstract view: 2^lg_k registers, one byte each
     spec fn regs(&self) -> Seq<u8> { self.bytes@ }
+    // (name used by units hll_sketch / hll_union for the configured lg_k of an array: refinement mapping for tools/linkprove.py)
+    spec fn lg(&self) -> u8 { self.lg_config_k }
     spec fn wf(&self) -> bool {
         &&& self.shape()
         &&& self.num_zeros == cnt0(self.regs(), self.k())
